@@ -116,6 +116,9 @@ func LookupWellKnown(ctx context.Context, serverNameType spec.ServerName) (*Well
 		return nil, err
 	}
 
+	// The cache lifetime comes from the response headers only, never from the response body.
+	wellKnownResponse.CacheExpiresAt = expiryTimestamp
+
 	if wellKnownResponse.NewAddress == "" {
 		return nil, errors.New("No m.server key found in well-known response")
 	}
